@@ -12,7 +12,7 @@ const semT = "utils/datasemaphore.DataSemaphore"
 
 func init() {
 	register("C30", "other", "T1 LockSet, T18 TimedWait, T4 GuardedBy (normalised comparisons), T3 PostDominates (Broadcast after every state change), reaching definitions with linear normal forms (Release)",
-		"Decides the shape the semaphore's bound/wait/timeout behaviour depends on: all state under the mutex; tryAcquire commits the new held amount only on the edge where both components fit the capacity; Acquire refuses over-capacity requests before waiting, re-evaluates tryAcquire, the capacity refusal (Terminate zeroes the capacity while callers sleep) and the deadline after every wake-up, and every cond.Wait is preceded by a deadline-bound waker that broadcasts under the mutex (otherwise a waiter that nobody releases for sleeps past its timeout) and that has not been cancelled since without a new one being armed; every change of the held amount or capacity in Release/Terminate is followed by Broadcast; Terminate zeroes the capacity. tryAcquire returns false only over an edge establishing that a component does not fit, its capacity test must not be written with a non-constant unsigned subtraction (`capacity - held` wraps once Terminate zeroed the capacity while an amount is held, so a non-empty request would be granted after termination), and TryAcquire returns tryAcquire's result. Release (inlined view, reaching definitions, linear normal forms, path queries; no code is interpreted or executed): every definition that can reach a store into the held amount is held - released, defined only on paths that established released <= held for both components, or the zero value, reaching the store only over an edge establishing held < released for some component; every path stores both components; the warning callback is called only on such an edge and only when non-nil, not after a store and not twice, and every path that has not established released <= held passes the call or the warning == nil edge. Timing ('returns shortly after') and uint32 wrap of summed amounts are not decided.",
+		"Decides the shape the semaphore's bound/wait/timeout behaviour depends on: all state under the mutex; tryAcquire commits the new held amount only on the edge where both components fit the capacity; Acquire refuses over-capacity requests before waiting, re-evaluates tryAcquire, the capacity refusal (Terminate zeroes the capacity while callers sleep) and the deadline after every wake-up, and every cond.Wait is preceded by a deadline-bound waker that broadcasts under the mutex (otherwise a waiter that nobody releases for sleeps past its timeout) and that has not been cancelled since without a new one being armed; every change of the held amount or capacity in Release/Terminate is followed by Broadcast; Terminate zeroes the capacity. tryAcquire returns false only over an edge establishing that a component does not fit, its capacity test must not be written with a non-constant unsigned subtraction (`capacity - held` wraps once Terminate zeroed the capacity while an amount is held, so a non-empty request would be granted after termination), and TryAcquire returns tryAcquire's result. Release (inlined view, reaching definitions, linear normal forms, path queries; no code is interpreted or executed): every definition that can reach a store into the held amount is held - released, defined only on paths that established released <= held for both components, or the zero value, reaching the store only over an edge establishing held < released for some component; every path stores both components; the warning callback is called only on such an edge and only when non-nil, not after a store and not twice, and every path that has not established released <= held passes the call or the warning == nil edge. When the new amount is computed by a helper with a boolean result, or stored by a helper, tryAcquire is decided the same way (c30_acquire_value.go: reaching definitions classified held + request / held, guards on the way to the helper's return or to the store, a boolean local defined from a helper call standing for the returns of the helper that give its value). The capacity re-check after a wake-up must read the live field: a copy of it taken where the woken caller does not pass again has no role. Timing ('returns shortly after') and uint32 wrap of summed amounts are not decided.",
 		[]string{"amounts sum below 2^32 (uint32 wrap in tmp.Num += is not analysed)", "time.AfterFunc runs its function once after the duration (time package contract)"},
 		runC30)
 }
@@ -20,7 +20,7 @@ func init() {
 func runC30(c *core.Ctx) {
 	p := c.P
 	c.Clause("C30.lock", func() {
-		res := core.RunLockset(p, semaphoreLockSpec())
+		res := c28RunLockset(p, semaphoreLockSpec())
 		reportLockset(c, res, nil, nil)
 		c28FieldFloors(c, res, semaphoreLockSpec())
 	})
@@ -29,9 +29,30 @@ func runC30(c *core.Ctx) {
 		f := c.Fn(semT + ".tryAcquire")
 		as := assignsToField(f, semT+".processing")
 		if len(as) == 0 {
-			// no wholesale commit: the request is added to the components of processing in place
-			c30TryAcquireInPlace(c, f)
+			inPlace := false
+			for _, a := range assignments(f) {
+				if _, path := fieldPath(f, a.LHS); len(path) == 2 && path[0] == semT+".processing" {
+					inPlace = true
+				}
+			}
+			if inPlace {
+				// no wholesale commit: the request is added to the components of processing in place
+				c30TryAcquireInPlace(c, f)
+			} else {
+				// the store lives in a function tryAcquire calls
+				c30TryAcquireValue(c, f)
+			}
 			return
+		}
+		for _, a := range as {
+			// the committed value is not a local of tryAcquire built in place (tmp := processing; tmp.X += req.X)
+			// but the result of a helper, or an expression: decided by reaching definitions on the inlined view
+			tmp := varOf(f, a.RHS)
+			_, _, _, fromCall := c30CallDef(f, tmp)
+			if tmp == nil || fromCall || !c30IsLocalOf(f, tmp) {
+				c30TryAcquireValue(c, f)
+				return
+			}
 		}
 		param := f.Param(0)
 		c.Need(param != nil, "tryAcquire has a named metric parameter")
@@ -84,7 +105,7 @@ func runC30(c *core.Ctx) {
 		for _, a := range as {
 			tmps[varOf(f, a.RHS)] = true
 		}
-		c30Refusals(c, f, func(comp string) string { return "max." + comp + " - new." + comp + " + 1 <= 0" }, func(acc c30Access) string {
+		c30Refusals(c, f, func(comp string) []string { return []string{"max." + comp + " - new." + comp + " + 1 <= 0"} }, func(acc c30Access) string {
 			if len(acc.Path) == 1 && acc.Root != nil && tmps[acc.Root] {
 				return "new." + short(acc.Path[0])
 			}
@@ -131,7 +152,10 @@ func runC30(c *core.Ctx) {
 				// refusal must be re-evaluated after every wake-up, i.e. every path from Wait back to Wait
 				// re-establishes req <= max. A test made once before the loop lets a caller that was blocked
 				// when Terminate ran go back to sleep until its own timeout.
-				okR, pathR := c30GuardedBetween(f, w.Pt, w.Pt, "req."+comp+" - max."+comp+" <= 0", name)
+				// The test must read the live capacity: a local copy of it (or of one of its components) taken
+				// where the woken caller does not pass again (limit := s.maxProcessing before the loop) still
+				// holds the capacity from before Terminate, so a test against it re-establishes nothing.
+				okR, pathR := c30GuardedBetweenSc(&c30Scope{F: f, Stale: c30StaleAcross(f, w.Pt)}, w.Pt, w.Pt, "req."+comp+" - max."+comp+" <= 0", name)
 				c.Check(okR, "capacity re-checked after wake "+comp, "T4 GuardedBy (loop)", w.Pos(),
 					"every path from Wait back to Wait re-establishes req."+comp+" <= max."+comp+" (a caller woken by Terminate, which zeroes the capacity, is refused instead of waiting again)",
 					"a woken caller can wait again without re-testing req."+comp+" <= max."+comp+": a caller blocked when Terminate zeroes the capacity sleeps until its own timeout: "+f.DescribePath(pathR))
